@@ -483,6 +483,19 @@ def step (line : String) : String :=
   | ["miepointrad", a, b, c, d, e, f, kr, th, ph, e1, e2] =>
       let r := miePointRad (⟨pF a, pF b⟩ : Cx Float) ⟨pF c, pF d⟩ ⟨pF e, pF f⟩ (pF kr) (pF th) (pF ph) (pF e1) (pF e2)
       sFs (flatCx [r.1, r.2.1, r.2.2])
+  -- C10 ---------------------------------------------------------------
+  | ["tmargs", kind, p1, p2, nre, nim, r1, r2, k, nmed] =>
+      let sh : TmShape Float := if kind == "sphere" then .sphere (pF p1) else if kind == "spheroid" then .spheroid (pF p1) (pF p2) else .cylinder (pF p1) (pF p2)
+      let a := tmArgs sh (pF nre) (pF nim) (0.0, pF r1, pF r2) (pF k) (pF nmed)
+      sFs [a.axi, a.rat, a.lam, a.mrr, a.mri, a.eps, Float.ofInt a.np, Float.ofNat a.ndgs, a.alpha, a.beta]
+  | ["eulerreduce", b, c] => let r := eulerReduce (pF b) (pF c); sFs [r.1, r.2]
+  | ["anglesok", a, b, t, p] => toString (anglesOk (pF a) (pF b) (0.0 : Float) (pF t) 0.0 (pF p))
+  | ["tmpack", lam, phiDeg, a, b, c, d, e, f, g, h] =>
+      let m := tmPack (pF lam) (pF phiDeg) (⟨pF a, pF b⟩ : Cx Float) ⟨pF c, pF d⟩ ⟨pF e, pF f⟩ ⟨pF g, pF h⟩
+      sFs (flatCx [m.1, m.2.1, m.2.2.1, m.2.2.2])
+  | ["tmpoint", lam, a, b, c, d, e, f, g, h, kr, th, ph] =>
+      let r := tmPoint (pF lam) (⟨pF a, pF b⟩ : Cx Float) ⟨pF c, pF d⟩ ⟨pF e, pF f⟩ ⟨pF g, pF h⟩ (pF kr) (pF th) (pF ph)
+      sFs (flatCx [r.1, r.2.1, r.2.2])
   -- C11 ---------------------------------------------------------------
   | "mapper" :: toks =>
       match parseModel toks with
@@ -614,7 +627,7 @@ def step (line : String) : String :=
         | _ => []
       let out := scsmfoArgs (pF k) (pF nmed) (six ss)
       sFs (out.flatMap fun o => [o.1.1, o.1.2.1, o.1.2.2, o.2.1, o.2.2.1, o.2.2.2])
-  | ["genfailures"] => toString (translationFailures ++ projTranslationFailures ++ tablesTranslationFailures)
+  | ["genfailures"] => toString (translationFailures ++ projTranslationFailures ++ tablesTranslationFailures ++ tmguardsTranslationFailures)
   | _ => "bad-op"
 
 partial def loop (h : IO.FS.Stream) : IO Unit := do
